@@ -252,9 +252,15 @@ def _kleene(e, val):
     return None if v is None else (v if pol else not v)
 
 
-def _unreachable_when_off(cfg, nid, stmt):
+def _unreachable_when_off(cfg, nid, stmt, ex=None):
     for test, pol in cfg.guards(nid):
         v = _kleene(test, _off_value)
+        if v is None and ex is not None:
+            # the guard may be a local that names the option test (`filter_unknown = schema.strict == "filter"`)
+            try:
+                v = _kleene(ex.expand(test), _off_value)
+            except Exception:   # expansion is best effort
+                v = None
         if v is not None and v != pol:
             return True, f"guarded by `{txt(test)}`"
     # inside a loop over schema.parsers ?
@@ -329,12 +335,13 @@ def r6_parse_on_request(ctx):
             continue
         seen.add(f.qual)
         cfg = cfg_of(f.node)
+        ex = Expander(f.node)
         for s, label in _data_write_sites(f, data_names):
             n = cfg.node_of(s)
             if n is None:
                 continue
             # inside set_default the whole function is only called under `default is not None`
-            ok, why = _unreachable_when_off(cfg, n.id, s)
+            ok, why = _unreachable_when_off(cfg, n.id, s, ex)
             if not ok:
                 ok, why = _callers_guard(ix, f)
             ctx.ob("R6", f, f"parser write {label}", ok,
